@@ -58,6 +58,13 @@ class Founder(System):
             self.clean_up()
 
 
+class Lead(System):
+    """An ordinary system that does nothing (registered ahead of the collectors)."""
+
+    def execute(self):
+        pass
+
+
 class PopSystem(System):
     def __init__(self, model):
         super().__init__("pop", model, priority=0)
@@ -148,6 +155,11 @@ def _run(prog, tmp):
         m.systems.add_system(pop)
         m.systems.add_system(Founder(m, prog["founder"]))      # same priority as pop, registered after it: directly before the collectors
         make_collectors()
+    elif prog.get("first") == "between":
+        # the collectors are registered between two ordinary systems: an idle one first, the population-changing one last
+        m.systems.add_system(Lead("lead", m, priority=0))
+        make_collectors()
+        m.systems.add_system(pop)
     elif prog.get("first") == "collectors":
         make_collectors()
         m.systems.add_system(pop)
@@ -217,7 +229,7 @@ def random_program(rng, steps=8):
         if rng.random() < 0.3:
             ops.append(["between", popops(rng.randint(1, 2))])
         ops.append(["step", popops(rng.choice([0, 1, 1, 2, 3]))])
-    return {"acs": acs, "fcs": fcs, "first": rng.choice(["pop", "collectors"]), "replace_env": rng.random() < 0.4,
+    return {"acs": acs, "fcs": fcs, "first": rng.choice(["pop", "collectors", "between"]), "replace_env": rng.random() < 0.4,
             "founder": rng.choice([None, None, 0, 1, 2, 3]), "dup_collector": rng.random() < 0.4, "ops": ops}
 
 
@@ -226,7 +238,7 @@ def sweep_programs():
     out = []
     for wc in range(4):
         for k in ([0], [1], [2], [0, 0, 1], [0, 0, 0, 1, 1], [1, 0, 0, 0, 0, 2]):
-            for first in ("pop", "collectors"):
+            for first in ("pop", "collectors", "between"):
                 ops = [["step", [["join", "x"]]], ["step", [["join", "y"], ["touch", "x"]]], ["step", []], ["step", [["leave", "x"]]],
                        ["step", [["touch", "y"]]], ["step", [["touch", "y"], ["join", "x"]]], ["step", []], ["step", [["leave", "y"]]], ["step", []]]
                 out.append({"replace_env": wc % 2 == 1,
